@@ -212,6 +212,59 @@ func diagnose(c *fedlab.Case, lab *fedlab.Lab, v *fedlab.Verdict) {
 	}
 	v.Diff = fedlab.Trunc(v.Diff, 260) + fmt.Sprintf(" ;; position %s selected under %d condition combination(s) {%s}; plan fields {%s}; upstream merge aliases {%s}",
 		posText, len(combos), strings.Join(combos, " , "), pf, strings.Join(aliases, ","))
+	if lost := nullRequiresInputs(c, v); len(lost) > 0 {
+		v.Diff += fmt.Sprintf("; requires inputs sent as null {%s}", strings.Join(lost, ","))
+	}
+}
+
+// nullRequiresInputs: "T.f@subgraph(provided by s2)" for every @requires input f that an _entities representation sent
+// to `subgraph` carries as null although the universe holds a non-null value for that entity and some subgraph s2
+// @provides T.f (the entity is identified by the representation's id: the universe contract makes id the entity key).
+func nullRequiresInputs(c *fedlab.Case, v *fedlab.Verdict) []string {
+	var out []string
+	seen := map[string]bool{}
+	for _, q := range v.Gateway.Requests {
+		g := c.Cfg.Subgraph(q.Subgraph)
+		if g == nil || !q.IsEntityFetch {
+			continue
+		}
+		for _, rep := range q.Representations {
+			tn, id := rep.Get("__typename"), rep.Get("id")
+			if tn == nil || id == nil || tn.Kind != fedlab.JStr || id.Kind != fedlab.JStr {
+				continue
+			}
+			st, e := g.Type(tn.Raw), c.Uni.Find(tn.Raw, id.Raw)
+			if st == nil || e == nil {
+				continue
+			}
+			for _, sf := range st.Fields {
+				for _, in := range strings.Fields(sf.Requires) {
+					rv, uv := rep.Get(in), e.Field(in)
+					if rv == nil || rv.Kind != fedlab.JNull || uv == nil || uv.Kind != fedlab.FSc || uv.JSON == nil || uv.JSON.Kind == fedlab.JNull {
+						continue
+					}
+					for _, g2 := range c.Cfg.Subgraphs {
+						for _, st2 := range g2.Types {
+							for _, sf2 := range st2.Fields {
+								td := c.Cfg.Super.Type(st2.Name)
+								if td == nil || td.Field(sf2.Name) == nil || td.Field(sf2.Name).Type.Base() != tn.Raw {
+									continue
+								}
+								for _, pn := range strings.Fields(sf2.Provides) {
+									tag := fmt.Sprintf("%s.%s@%s(provided by %s)", tn.Raw, in, g.Name, g2.Name)
+									if pn == in && !seen[tag] {
+										seen[tag] = true
+										out = append(out, tag)
+									}
+								}
+							}
+						}
+					}
+				}
+			}
+		}
+	}
+	return out
 }
 
 var repoFrameRE = regexp.MustCompile(`github\.com/wundergraph/graphql-go-tools/(?:v2|execution)/(pkg/[\w/]+\.[\w.()*\[\]]+)\(`)
